@@ -417,7 +417,9 @@ func chainScenarios(yield func(any)) {
 // then a run with every one of the 32 flag sets plans; a generate-all run and the two default runs close the history.
 func decisionScenarios(yield func(any)) {
 	states := []string{"full", "strip-key", "strip-cert", "csr-nokey", "delete"}
-	reasons := []string{"none", "expired", "changed", "touch", "issuer-newer"}
+	// "expired-still-past": the certificate has expired and so would a new one (the end of validity moves, but stays in the past);
+	// "zero-duration": a run-relative validity of no length — every certificate expires at once and a new one would, too
+	reasons := []string{"none", "expired", "changed", "touch", "issuer-newer", "expired-still-past", "zero-duration"}
 	for tier := 0; tier < 2; tier++ {
 		for si, state := range states {
 			for ri, reason := range reasons {
@@ -425,7 +427,7 @@ func decisionScenarios(yield func(any)) {
 					continue
 				}
 				for strat := 0; strat < 32; strat++ {
-					if !thorough() && !(strat == 2 || strat == 8 || strat == 10 || strat == 6 || strat == 12 || strat == 1 || (strat+si+ri+tier)%6 == 0) {
+					if !thorough() && !(strat == 2 || strat == 8 || strat == 10 || strat == 6 || strat == 12 || strat == 1 || strat == 11 || (strat+si+ri+tier)%6 == 0) {
 						continue
 					}
 					ents := []entitySpec{
@@ -433,9 +435,12 @@ func decisionScenarios(yield func(any)) {
 						{alias: "sub", path: "sub.yaml", issuer: 0, cfg: J{"version": 1, "subject": "CN=Decision Sub", "issuer": "root"}},
 					}
 					e := ents[tier]
-					if reason == "expired" {
+					if reason == "expired" || reason == "expired-still-past" {
 						// no `from`: the end of validity is not part of the stored hash, so only the expiry rule can see the edit
 						e.cfg["validity"] = J{"until": "2001-02-03"}
+					}
+					if reason == "zero-duration" {
+						e.cfg["validity"] = J{"duration": "0d"}
 					}
 					files := []FileIn{cfgFile(ents[0]), cfgFile(ents[1])}
 					steps := []Step{{Op: "run", Strat: defaultStrat}}
@@ -443,6 +448,12 @@ func decisionScenarios(yield func(any)) {
 					case "expired":
 						c := cloneJ(e.cfg)
 						c["validity"] = J{"until": "2091-02-03"}
+						e.cfg = c
+						f := cfgFile(e)
+						steps = append(steps, Step{Op: "write", File: &f})
+					case "expired-still-past":
+						c := cloneJ(e.cfg)
+						c["validity"] = J{"until": "2005-06-07"}
 						e.cfg = c
 						f := cfgFile(e)
 						steps = append(steps, Step{Op: "write", File: &f})
@@ -467,7 +478,7 @@ func decisionScenarios(yield func(any)) {
 					case "delete":
 						steps = append(steps, Step{Op: "delete", Path: pemPath(e.path)})
 					case "full":
-						if reason == "expired" || reason == "changed" {
+						if reason == "expired" || reason == "changed" || reason == "expired-still-past" {
 							steps = append(steps, Step{Op: "appendNote", Path: pemPath(e.path)})
 						}
 					}
@@ -477,7 +488,11 @@ func decisionScenarios(yield func(any)) {
 					if reason == "issuer-newer" {
 						steps = append(steps, Step{Op: "appendNote", Path: pemPath(ents[0].path)})
 					}
-					steps = append(steps, Step{Op: "run", Strat: strat}, Step{Op: "run", Strat: 31}, Step{Op: "run", Strat: defaultStrat}, Step{Op: "run", Strat: defaultStrat})
+					steps = append(steps, Step{Op: "run", Strat: strat})
+					if reason == "zero-duration" {
+						steps = append(steps, Step{Op: "run", Strat: strat})
+					}
+					steps = append(steps, Step{Op: "run", Strat: 31}, Step{Op: "run", Strat: defaultStrat}, Step{Op: "run", Strat: defaultStrat})
 					yield(HistIn{Tz: 0, Files: files, Steps: steps})
 				}
 			}
@@ -761,7 +776,137 @@ func genProfile(name string) J {
 	return p
 }
 
+// nestedEditCases: one configuration with every structured extension filled in depth; each edit changes exactly one leaf
+// somewhere inside an extension's content (a string, a number, a flag, one list element dropped): every such edit changes the
+// certificate, so it must change the stored hash (C13, second sentence)
+func nestedEditCases(yield func(any)) {
+	base := J{"version": 1, "subject": "CN=Nested,O=Edits", "extensions": []any{
+		J{"keyUsage": J{"content": []any{"digitalSignature", "keyCertSign"}, "critical": true}},
+		J{"subjectAlternativeName": J{"content": []any{J{"type": "mail", "name": "a@example.org"}, J{"type": "dns", "name": "example.org"}, J{"type": "ip", "name": "10.1.2.3"}}}},
+		J{"basicConstraints": J{"content": J{"ca": true, "pathLen": 2}}},
+		J{"certificatePolicies": J{"content": []any{
+			J{"oid": "1.2.3.4", "qualifiers": []any{J{"cps": "http://cps.example.org"}, J{"userNotice": J{"organization": "Org", "numbers": []any{1, 2}, "text": "notice"}}}},
+			J{"oid": "1.2.3.5"}}}},
+		J{"authorityInformationAccess": J{"content": []any{J{"ocsp": "http://ocsp1.example.org"}, J{"ocsp": "http://ocsp2.example.org"}}}},
+		J{"authorityKeyIdentifier": J{"content": J{"id": "!binary:AQIDBA=="}}},
+		J{"subjectKeyIdentifier": J{"content": "!binary:BQYHCA=="}},
+		J{"extendedKeyUsage": J{"content": []any{"serverAuth", "clientAuth"}}},
+		J{"admission": J{"content": J{"admissionAuthority": J{"type": "dns", "name": "authority.example.org"}, "admissions": []any{
+			J{"admissionAuthority": J{"type": "mail", "name": "adm@example.org"}, "namingAuthority": J{"oid": "1.2.3.6", "url": "http://na.example.org", "text": "naming"},
+				"professionInfos": []any{
+					J{"namingAuthority": J{"oid": "1.2.3.7", "url": "http://na2.example.org", "text": "naming two"}, "professionItems": []any{"Arzt", "Apotheker"},
+						"professionOids": []any{"1.2.276.0.76.4.30", "1.2.276.0.76.4.31"}, "registrationNumber": "12345", "addProfessionInfo": "!binary:AQI="},
+					J{"professionItems": []any{"Zahnarzt"}, "professionOids": []any{"1.2.276.0.76.4.32"}, "registrationNumber": "67890"}}},
+			J{"professionInfos": []any{J{"professionItems": []any{"Second"}}}}}}}},
+		J{"custom": J{"oid": "1.2.3.77", "raw": "!binary:BQA="}},
+	}}
+	alt := map[string]string{"digitalSignature": "nonRepudiation", "keyCertSign": "crlSign", "serverAuth": "codeSigning", "clientAuth": "emailProtection",
+		"mail": "dns", "dns": "mail", "ip": "ip", "10.1.2.3": "10.1.2.4"}
+	isOid := func(x string) bool {
+		if x == "" || strings.Count(x, ".") < 2 {
+			return false
+		}
+		for _, r := range x {
+			if r != '.' && (r < '0' || r > '9') {
+				return false
+			}
+		}
+		return true
+	}
+	type edit struct {
+		name  string
+		apply func(root J)
+	}
+	var edits []edit
+	var walk func(v any, path []any)
+	get := func(root J, path []any) (parent any, last any) {
+		var cur any = map[string]any(root)
+		for _, k := range path[:len(path)-1] {
+			switch c := cur.(type) {
+			case map[string]any:
+				cur = c[k.(string)]
+			case []any:
+				cur = c[k.(int)]
+			}
+		}
+		return cur, path[len(path)-1]
+	}
+	set := func(root J, path []any, val any) {
+		parent, last := get(root, path)
+		switch c := parent.(type) {
+		case map[string]any:
+			c[last.(string)] = val
+		case []any:
+			c[last.(int)] = val
+		}
+	}
+	walk = func(v any, path []any) {
+		name := fmt.Sprint(path...)
+		pp := append([]any{}, path...)
+		switch x := v.(type) {
+		case map[string]any:
+			keys := []string{}
+			for k := range x {
+				keys = append(keys, k)
+			}
+			sort.Strings(keys)
+			for _, k := range keys {
+				walk(x[k], append(append([]any{}, path...), k))
+			}
+		case []any:
+			for i := range x {
+				walk(x[i], append(append([]any{}, path...), i))
+			}
+			if len(x) > 1 {
+				// one element dropped (the last one)
+				edits = append(edits, edit{"drop:" + name, func(root J) {
+					parent, last := get(root, pp)
+					l := parent.(map[string]any)[last.(string)].([]any)
+					parent.(map[string]any)[last.(string)] = l[:len(l)-1]
+				}})
+			}
+		case string:
+			nv := x + "x"
+			if a, ok := alt[x]; ok {
+				nv = a
+			} else if isOid(x) {
+				nv = x + ".9"
+			} else if strings.HasPrefix(x, "!binary:") {
+				nv = "!binary:CQkJ"
+			}
+			edits = append(edits, edit{"leaf:" + name, func(root J) { set(root, pp, nv) }})
+		case json.Number:
+			n, _ := x.Int64()
+			edits = append(edits, edit{"leaf:" + name, func(root J) { set(root, pp, n+1) }})
+		case bool:
+			edits = append(edits, edit{"leaf:" + name, func(root J) { set(root, pp, !x) }})
+		}
+	}
+	probe := cloneJ(base)
+	for i, e := range probe["extensions"].([]any) {
+		walk(e, []any{"extensions", i})
+	}
+	mk := func(name string, c J) HashVariant {
+		return HashVariant{Name: name, Path: "ent.yaml", Cfg: must(json.Marshal(c)), Yaml: true}
+	}
+	// in groups of 12 edits per case (the driver compares all pairs of variants of a case)
+	for i := 0; i < len(edits); i += 12 {
+		var vs []HashVariant
+		hi := i + 12
+		if hi > len(edits) {
+			hi = len(edits)
+		}
+		for _, e := range edits[i:hi] {
+			c := cloneJ(base)
+			e.apply(c)
+			vs = append(vs, mk(e.name, c))
+		}
+		yield(HashIn{Tz: 0, Base: mk("base", cloneJ(base)), Rereads: []HashVariant{{Name: "json-syntax", Path: "ent.json", Cfg: must(json.Marshal(base)), Yaml: false}}, Edits: vs})
+	}
+}
+
 func genHash(yield func(any)) {
+	nestedEditCases(yield)
 	for n := 0; n < pick(60, 1000); n++ {
 		cfg := genCertCfg(cfgOpts{fast: true, maxExt: 5, manip: chance(1, 3)})
 		if chance(1, 4) {
